@@ -202,6 +202,42 @@ Definition judge_shuffle (c o : sexp) : verdict :=
   | _, _, _ => VBad "undecodable shuffle case"
   end.
 
+(** the same tree under several seeds: every result obeys the per-result oracle, and the results are
+    not all the identity (with at least 3 distinct tip names and 16 seeds the identity every time
+    has probability < 1e-12 under any uniform shuffle)
+      ((op shufflemulti) (tree T) (seeds (s ...)) (nraw R))   obs ((results (((raw ..) (tree T') (audit ..)) ...))) *)
+Definition judge_shufflemulti (c o : sexp) : verdict :=
+  match get_tree "tree" c, (x <- get "results" o ;; list_of x) with
+  | Some t, Some rs =>
+    let one (r : sexp) : option (option string * bool * bool) :=   (* oracle message, model agrees, identity *)
+        match get_raw r, get_tree "tree" r with
+        | Some raw, Some g =>
+          match draws (shuffle_bounds t) raw with
+          | None => None
+          | Some (cs, _) =>
+            Some (first_some [audit_ok r;
+                              (if same_shape t g then None else Some "ShuffleTips changed more than tip names (shape or an inner node name)");
+                              (if sset_eqb (ssort (tip_names t)) (ssort (tip_names g)) then None
+                               else Some "ShuffleTips changed the multiset of tip names")],
+                  utree_eqb (shuffle_tips t cs) g, utree_eqb t g)
+          end
+        | _, _ => None
+        end in
+    match omap one rs with
+    | None => VBad "undecodable shufflemulti result"
+    | Some l =>
+      match first_some (map (fun x => fst (fst x)) l) with
+      | Some msg => VOracle msg
+      | None =>
+        if Nat.leb 3 (length (sset (tip_names t))) && Nat.leb 16 (length l) && forallb (fun x => snd x) l
+        then VOracle "ShuffleTips leaves the tip names in place for every seed"
+        else if forallb (fun x => snd (fst x)) l then VOk true "shufflemulti"
+        else VCorr "a shuffled tree differs from the model's prediction"
+      end
+    end
+  | _, _ => VBad "undecodable shufflemulti case"
+  end.
+
 (** ** exhaustive enumeration over the choice vectors of a small instance *)
 Fixpoint count_occ_by {A} (eqb : A -> A -> bool) (x : A) (l : list A) : nat :=
   match l with
@@ -311,6 +347,7 @@ Definition judge (c o : sexp) : verdict :=
     else if String.eqb op "prunemulti" then judge_prunemulti c o
     else if String.eqb op "uniform" then judge_uniform c o
     else if String.eqb op "shuffle" then judge_shuffle c o
+    else if String.eqb op "shufflemulti" then judge_shufflemulti c o
     else judge_enum op c
   | None => VBad "no op"
   end.
